@@ -18,7 +18,8 @@ from vlib.gen import c09_histories as gen
 
 PROPERTY = "C09"
 LEVEL = "exploration"
-RULE = ("case = (option set {linear,voce,power law} x {rate independent, power-law rate sensitive} x {large,small} kinematics; "
+RULE = ("case = (option set {linear,voce,power law} x {rate independent, power-law rate sensitive} x {large,small} kinematics, plus 4 (thorough 6) "
+        "option sets with the 'seth hill' kinematics, plus model pairs (identical hardening constants, with/without rate sensitivity, created in one process in both orders); "
         "constants: yield strain Y0/(3 mu) stratified over the decades 1e-7 ... 3e-2 independently of the other ratios, E in [1e-3,1e9], nu in [0,0.49] "
         "(plus the upstream test constants and, for the boundary classes, E/Y0 in [20,5e3]); hardening/rate parameters over 2-4 decades, hardening reference "
         "strains absolute or multiples of the yield strain; increments either in multiples of the yield strain or with absolute upper ends; either baked into "
@@ -73,6 +74,9 @@ def _ri_nan_key(sig):
 GUARD_KINDS = ["monotonic", "nonproportional", "reversing", "at_yield"]
 HARDS = [("linear", "lin"), ("voce", "voce"), ("power", "pow")]
 KINS = ["large", "small"]
+# the library's third kinematics option ('seth hill': strain (C^(1/4) - I)/(1/2), additive plastic strain); quick: 4 option sets
+SETHHILL_OPTIONS = {"quick": [("linear", 0), ("voce", 1), ("power", 0), ("linear", 1)],
+                    "thorough": [("linear", 0), ("linear", 1), ("voce", 0), ("voce", 1), ("power", 0), ("power", 1)]}
 BOUNDARY = [("perfect_plasticity", "linear", "perfect"), ("voce_ysat_eq_y0", "voce", "voce_ysat_eq_y0"),
             ("voce_saturated", "voce", "voce_saturated")]
 BOUNDARY_KINDS = ["monotonic", "nonproportional", "at_yield", "tiny_large", "reversing"]
@@ -82,8 +86,8 @@ TIERS = {
     # nb baked constant sets per option set (set 0 = upstream test constants), cb cases per kind per baked set,
     # nt traced-constant groups per option set, ct cases per kind per traced group (fresh constants per case),
     # bnb/bcb the same for the boundary classes, bct traced boundary cases per (class, kinematics)
-    "quick": dict(nb=2, cb=1, nt=1, ct=3, bnb=1, bcb=1, bct=3, gct=1),
-    "thorough": dict(nb=5, cb=14, nt=6, ct=15, bnb=2, bcb=10, bct=60, gct=4),
+    "quick": dict(nb=2, cb=1, nt=1, ct=3, bnb=1, bcb=1, bct=3, gct=1, np=1),
+    "thorough": dict(nb=5, cb=14, nt=6, ct=15, bnb=2, bcb=10, bct=60, gct=4, np=6),
 }
 
 
@@ -104,6 +108,14 @@ def _required():
                 o = optname(hard, rate, kin)
                 req["opt:%s:steps" % o] = 800
                 req["opt:%s:plastic" % o] = 400
+    for hard, rate in SETHHILL_OPTIONS["quick"]:
+        o = optname(hard, rate, "sethhill")
+        req["opt:%s:steps" % o] = 400
+        req["opt:%s:plastic" % o] = 200
+    for kin in KINS + ["sethhill"]:
+        req["kin:%s:steps" % kin] = 2000
+        req["kin:%s:plastic" % kin] = 1000
+    req["model_pairs_created"] = 2
     for b in gen.YS_BANDS:
         req["ys_band_%d:plastic" % b] = 600
         req["ys_band_%d:elastic" % b] = 300
@@ -172,6 +184,38 @@ def build_cases(tier, seed):
                             n_traced += 1
                             add(kind, "%s/T%d" % (o, g), hard, rate, kin, "traced", gen.random_constants(cr, hard, rate, band=band), kind, g * 100000 + i, first)
                             first = False
+    # 'seth hill' kinematics: baked upstream constants + one traced-constant group per option set
+    for hard, rate in SETHHILL_OPTIONS[tier]:
+        o = optname(hard, rate, "sethhill")
+        oi += 1
+        first = True
+        for kind in gen.KINDS:
+            for i in range(T["cb"]):
+                add(kind, "%s/B0" % o, hard, rate, "sethhill", "baked", gen.reference_constants(hard, rate), kind, i, first, scale="absolute")
+                first = False
+        for g in range(T["nt"]):
+            first = True
+            for kind in gen.KINDS:
+                for i in range(T["ct"]):
+                    cr = rng_of(derive_seed(seed, PROPERTY, "tconsts", o, g, kind, i))
+                    band = gen.YS_BANDS[(n_traced + seed + oi) % nband]
+                    n_traced += 1
+                    add(kind, "%s/T%d" % (o, g), hard, rate, "sethhill", "traced", gen.random_constants(cr, hard, rate, band=band), kind, g * 100000 + i, first)
+                    first = False
+    # model pairs: two models with identical elastic/hardening constants, one rate independent and one rate sensitive, are
+    # created in ONE process in both orders (fresh constants per pair, so that nothing created earlier in the worker shares
+    # them); both are then driven through histories and checked against their own specification
+    for j, order in enumerate(["ri_first", "rate_first"] * T["np"]):
+        hard = ["linear", "voce", "power"][j % 3]
+        kin = ["small", "large"][(j // 2) % 2]
+        cr = rng_of(derive_seed(seed, PROPERTY, "pair", j))
+        c1 = gen.random_constants(cr, hard, 1, band=gen.YS_BANDS[3 + j % 3])
+        c0 = {k: v for k, v in c1.items() if k not in ("S", "m", "epsDot0")}
+        s = derive_seed(seed, PROPERTY, "model_pair", j)
+        kind = ["monotonic", "nonproportional", "reversing", "at_yield"][j % 4]
+        cases.append({"cls": "model_pair", "group": "pair/%d" % j, "cost": 25.0, "seed": s, "pair": order, "hard": hard, "kin": kin,
+                      "consts_ri": c0, "consts_rate": c1, "kind": kind, "form": "3d", "nsteps": 12, "nh": NH, "scale": "yield", "mode": "baked",
+                      "opt": optname(hard, 0, kin), "rate": 0, "consts": c0, "ys_band": gen.ys_band(c0)})
     # boundary-of-admissibility classes (rate independent: that is where the hardening slope can vanish)
     for cls, hard, bnd in BOUNDARY:
         for kin in KINS:
@@ -211,7 +255,7 @@ _PKEYS = {"linear": ["H"], "voce": ["Ysat", "eps0"], "power": ["n", "eps0"]}
 
 def _props(hard, rate, kin, c):
     p = {"elastic modulus": c["E"], "poisson ratio": c["nu"], "yield strength": c["Y0"],
-         "kinematics": "large deformations" if kin == "large" else "small deformations"}
+         "kinematics": {"large": "large deformations", "small": "small deformations", "sethhill": "seth hill"}[kin]}
     if hard == "linear":
         p.update({"hardening model": "linear", "hardening modulus": c["H"]})
     elif hard == "voce":
@@ -279,6 +323,9 @@ def _check_step(res, case, law, fns, k, H, st_old, dt, st_new, tag, info, acc):
     o = case["opt"]
     res.count("steps")
     res.count("opt:%s:steps" % o)
+    res.count("kin:%s:steps" % kin)
+    if plastic:
+        res.count("kin:%s:plastic" % kin)
     res.count("plastic_steps" if plastic else "elastic_steps")
     if plastic:
         res.count("opt:%s:plastic" % o)
@@ -336,10 +383,10 @@ def _check_step(res, case, law, fns, k, H, st_old, dt, st_new, tag, info, acc):
         # rounding bound: tr(N) of the computed flow direction is ~ eps*(|tr Ee|/3 + |Ee|)/|dev Ee| (cancellation when the
         # deviator is formed), accumulated over the plastic steps of this history; safety factor 16
         if plastic:
-            nEe = float(ref.fro(tq["Ee"]))
+            nEe = float(ref.fro(tq["Ee"])) + ((1.0 + float(ref.fro(pl_old))) if kin == "sethhill" else 0.0)   # magnitudes of the cancelling inputs
             acc["tr"] += 16 * ref.EPS * ref.SQ32 * de * (1.0 + (abs(float(onp.trace(tq["Ee"]))) / 3.0 + nEe) / max(ndev_tr, 1e-300))
         res.bound("isochoric_tr_epsp", abs(float(onp.trace(pl_new))), acc["tr"] + 16 * ref.EPS * float(ref.fro(pl_new)) + 1e-300, ctx)
-        condp = 1.0
+        condp = 1.0 if kin == "small" else max(1.0, _norm2(tq["F"]) * _norm2(onp.linalg.inv(tq["F"])))
 
     # 3. the committed increment is admissible: eqps accounts for all of the plastic strain increment
     D, _asym = ref.recover_increment(kin, pl_old, pl_new)
@@ -374,12 +421,20 @@ def _check_step(res, case, law, fns, k, H, st_old, dt, st_new, tag, info, acc):
         g_ce = ref.spectral_info(tq["Ce"])[0]
         if g_ce >= 1e-9:
             r_eig = 2 * mu * float(ref.fro(tq["Ee"])) * 8 * ref.EPS / g_ce
+    elif kin == "sethhill":
+        # same conditioning for pow_symm(C, 1/4) = V diag(lambda^(1/4)) V^T, but here the leaking coefficient is lambda^(1/4) ~ 1
+        # (not a small log strain) and the strain is (C^m - I)/(2m) = 2 (C^(1/4) - I): bound 2 mu * 2 (1+|E|) * 8 eps / g.  It enters
+        # the library's own trial strain, hence also the state it commits.
+        g_ce = ref.spectral_info(tq["Ce"])[0]
+        if g_ce >= 1e-9:
+            r_eig = 2 * mu * 2.0 * (1.0 + float(ref.fro(tq["Ee"]))) * 8 * ref.EPS / g_ce
+            tolY += r_eig
     res.bound("yield_state" + tagc, mises_state - Y_hi, LS * tolY, dict(ctx, mises=mises_state, flow=Y_hi), n3)
     if plastic:
         res.bound("consistency_on_surface" + tagc, max(mises_state - Y_hi, Y_lo - mises_state), LS * tolY, dict(ctx, mises=mises_state, flow_lo=Y_lo, flow_hi=Y_hi), n3)
 
     # ... and from the library's own stress
-    Finv = _norm2(onp.linalg.inv(tq["F"])) if kin == "large" else 1.0
+    Finv = _norm2(onp.linalg.inv(tq["F"])) if kin == "large" else max(1.0, _norm2(onp.linalg.inv(tq["F"]))) if kin == "sethhill" else 1.0
     W_old, P_old = wp(H, st_old, dt)
     W_old, P_old = float(W_old), onp.asarray(P_old, dtype=float)
     tolY2 = tolY + 200 * ref.EPS * float(onp.linalg.norm(P_old)) * (_norm2(tq["F"]) if kin == "large" else 1.0)
@@ -398,9 +453,14 @@ def _check_step(res, case, law, fns, k, H, st_old, dt, st_new, tag, info, acc):
     r_trN = law.kappa * trE * 16 * ref.EPS * ref.SQ32 * (1.0 + (trE / 3.0 + float(ref.fro(tq["Ee"]))) / max(ndev_tr, 1e-300)) * Finv
     tolY2 += r_trN
     if rate:
-        m_lib = ref.mises_of_stress(kin, P_old, H)
-        res.bound("yield_stress_precommit" + tagc, m_lib - Ydyn, LS * tolY2, dict(ctx, mises=m_lib, flow=Ydyn), n3)
-        res.count("yield_stress_precommit_checks")
+        if kin == "sethhill":
+            # the Mises invariant of the stress conjugate to the Seth-Hill strain is not recoverable from P without the
+            # derivative of the strain measure; the state-based yield clauses above decide for this kinematics
+            res.count("yield_stress_clause_skipped_sethhill")
+        else:
+            m_lib = ref.mises_of_stress(kin, P_old, H)
+            res.bound("yield_stress_precommit" + tagc, m_lib - Ydyn, LS * tolY2, dict(ctx, mises=m_lib, flow=Ydyn), n3)
+            res.count("yield_stress_precommit_checks")
     else:
         W_new, P_new = wp(H, st_new, dt)
         W_new, P_new = float(W_new), onp.asarray(P_new, dtype=float)
@@ -419,7 +479,7 @@ def _check_step(res, case, law, fns, k, H, st_old, dt, st_new, tag, info, acc):
             res.violate("finite_at_committed_state" + ("[%s class]" % mech[4:6] if mech else ""),
                         dict(ctx, W_new=W_new, reupdate_finite=bool(onp.all(onp.isfinite(st2))), rootfind=sig, yield_strain=Y0 / (3 * mu)), mech)
             return {"repeated_nonaxis": False, "min_gap": None, "skip_batched": True}
-        m_lib = ref.mises_of_stress(kin, P_new, H)
+        m_lib = ref.mises_of_stress(kin, P_new, H) if kin != "sethhill" else float("nan")
         # rounding of the library's stress at the committed state: that state sits on the yield surface, its elastic strain
         # differences (and hence the eigenvalue gaps of Ce) are of the order of the yield strain, and the library may
         # re-yield there by rounding noise -- eigenvector conditioning and pressure*tr(N) leak evaluated at the committed state
@@ -429,11 +489,16 @@ def _check_step(res, case, law, fns, k, H, st_old, dt, st_new, tag, info, acc):
             g_new = ref.spectral_info(tqn["Ce"])[0]
             if g_new >= 1e-9:
                 r_eig_new = 2 * mu * float(ref.fro(tqn["Ee"])) * 8 * ref.EPS / g_new
-        mag = (float(ref.fro(pl_new)) + float(ref.fro(H))) if kin == "small" else (1.0 + float(ref.fro(tq["Ee"]))) * condp
+        elif kin == "sethhill":
+            r_eig_new = r_eig            # C = F^T F does not depend on the state
+        mag = (float(ref.fro(pl_new)) + float(ref.fro(H)) + (1.0 if kin == "sethhill" else 0.0)) if kin != "large" else (1.0 + float(ref.fro(tq["Ee"]))) * condp
         r_trN_new = (law.kappa * trE * 16 * ref.EPS * ref.SQ32 * (1.0 + mag / max(float(ref.fro(dE_new)), 1e-300)) * Finv) if plastic else 0.0
         tolY3 = tolY2 + (r_eig_new + r_trN_new) * (_norm2(tq["F"]) if kin == "large" else 1.0)
-        res.bound("yield_stress_committed" + tagc, m_lib - Ydyn, LS * tolY3, dict(ctx, mises=m_lib, flow=Ydyn), n3)
-        res.count("yield_stress_committed_checks")
+        if kin == "sethhill":
+            res.count("yield_stress_clause_skipped_sethhill")
+        else:
+            res.bound("yield_stress_committed" + tagc, m_lib - Ydyn, LS * tolY3, dict(ctx, mises=m_lib, flow=Ydyn), n3)
+            res.count("yield_stress_committed_checks")
         # 6. commit invariance of W and P
         hard_scale = abs(float(law.energy_static(e_new)))
         sW = abs(W_new) + mu * float(ref.fro(tq["Ee"])) ** 2 + law.kappa * float(onp.trace(tq["Ee"])) ** 2 + hard_scale
@@ -441,7 +506,7 @@ def _check_step(res, case, law, fns, k, H, st_old, dt, st_new, tag, info, acc):
         rW = 50 * ref.EPS * (2 * mu * ndev_tr + law.kappa * abs(float(onp.trace(tq["Ee"])))) * (1.0 + float(ref.fro(tq["Ee"]))) * condp
         res.bound("commit_invariance_W", abs(W_old - W_new), 1e-12 * sW + rW + ref.TOL_SOLVER * Y0 * (abs(de) + ref.TOL_SOLVER) + 1e-300, dict(ctx, W_old=W_old, W_new=W_new))
         # the committed plastic strain / distortion is stored to one rounding; seen through 2 mu (rounding bound, safety 8)
-        r_state = 2 * mu * 8 * ref.EPS * ((float(ref.fro(pl_new)) + float(ref.fro(H))) if kin == "small" else (1.0 + float(ref.fro(tq["Ee"]))) * condp)
+        r_state = 2 * mu * 8 * ref.EPS * ((float(ref.fro(pl_new)) + float(ref.fro(H)) + (1.0 if kin == "sethhill" else 0.0)) if kin != "large" else (1.0 + float(ref.fro(tq["Ee"]))) * condp)
         # the committed state sits on the yield surface to rounding; when the library re-yields there by rounding noise the
         # same pressure * tr(N) leak as in the pre-commit stress occurs, with the (tiny) committed elastic deviator as
         # denominator and the magnitudes of the cancelling inputs as numerator
@@ -498,9 +563,9 @@ def _check_step(res, case, law, fns, k, H, st_old, dt, st_new, tag, info, acc):
 
     # facts for the batched cross-check classifier
     facts = {"repeated_nonaxis": False, "min_gap": None}
-    if kin == "large":
+    if kin in ("large", "sethhill"):
         gaps = [ref.spectral_info(tq["Ce"])]
-        if plastic and onp.all(onp.isfinite(D)):
+        if kin == "large" and plastic and onp.all(onp.isfinite(D)):
             gaps.append(ref.spectral_info(D))
         facts["min_gap"] = min(g[0] for g in gaps)
         facts["repeated_nonaxis"] = ref.d8_class(gaps)
@@ -510,7 +575,29 @@ def _check_step(res, case, law, fns, k, H, st_old, dt, st_new, tag, info, acc):
 
 
 def run_case(case):
+    if case.get("pair"):
+        # create both models of the pair in the prescribed order (model creation is eager in _fns), then check each
+        res = Res(case)
+        subs = {r: dict(case, rate=r, consts=case["consts_rate" if r else "consts_ri"], opt=optname(case["hard"], r, case["kin"]),
+                        seed=derive_seed(case["seed"], "sub", r)) for r in (0, 1)}
+        order = [0, 1] if case["pair"] == "ri_first" else [1, 0]
+        for r in order:
+            _fns(subs[r])
+        res.count("model_pairs_created")
+        res.count("model_pair_order:" + case["pair"])
+        for r in order:
+            _run_histories(res, subs[r])
+        if res.obs.get("plastic_steps", 0) > 0:
+            res.nontrivial = True
+        return res
     res = Res(case)
+    _run_histories(res, case)
+    if res.obs.get("plastic_steps", 0) > 0:
+        res.nontrivial = True
+    return res
+
+
+def _run_histories(res, case):
     law = ref.Law(case["hard"], case["rate"], case["consts"])
     fns = _fns(case)
     upd, wp, updB, init = fns
@@ -546,7 +633,7 @@ def run_case(case):
                 continue
             ctx = {"history": i, "step": k, "tag": tags[i], "dt": dts[i]}
             e_old_i, pl_old_i = ref.split_state(st[i])
-            if kin == "large" and not (onp.linalg.det(Hn[i] + onp.eye(3)) > 0.05):
+            if kin != "small" and not (onp.linalg.det(Hn[i] + onp.eye(3)) > 0.05):
                 raise RuntimeError("harness generated an inadmissible displacement gradient (det F <= 0.05)")
             tq_i = ref.trial_quantities(kin, Hn[i], pl_old_i)
             trial_i = float(ref.mises_of_dev_strain(law.mu, tq_i["devEe"]))
@@ -580,10 +667,10 @@ def run_case(case):
             tolB = 1e-12 * max(1.0, float(onp.max(onp.abs(new[i])))) + 2 * ref.TOL_SOLVER * law.Y0 / (3 * law.mu) * ref.SQ32 * max(1.0, _norm2(pl_new))
             # two valid evaluations of an eigenvector-based tensor function differ by the conditioning of the eigenvectors,
             # ~ eps / (relative eigenvalue gap); below gap 1e-8 the D8 class takes over
-            if kin == "large" and facts["min_gap"] is not None and facts["min_gap"] < 1e-2:
+            if kin != "small" and facts["min_gap"] is not None and facts["min_gap"] < 1e-2:
                 tolB += 256 * ref.EPS / max(facts["min_gap"], 1e-8) * max(1.0, float(onp.max(onp.abs(new[i]))))
             dB = float(onp.max(onp.abs(stB[i] - new[i]))) if onp.all(onp.isfinite(stB[i])) else float("nan")
-            mech = D8_KEY if (kin == "large" and facts["repeated_nonaxis"]) else None
+            mech = D8_KEY if (kin != "small" and facts["repeated_nonaxis"]) else None
             if facts.get("skip_batched"):
                 H[i], st[i] = Hn[i], new[i]
                 continue
@@ -598,8 +685,6 @@ def run_case(case):
                 res.count("batched_steps_in_D8_class")
             res.bound("batched_equals_single" + ("[D8 class]" if mech == D8_KEY else "[%s class]" % mech[4:6] if mech else ""), dB, tolB, dict(ctx, min_rel_gap=facts["min_gap"], H=Hn[i], state_old=st[i]), mech)
             H[i], st[i] = Hn[i], new[i]
-    if res.obs.get("plastic_steps", 0) > 0:
-        res.nontrivial = True
     return res
 
 
